@@ -101,6 +101,10 @@ pub struct Cfg {
     /// adversarial-peer attack name (client rewrites its own cleartext payloads) and trigger
     pub attack: String,
     pub attack_at: u64,
+    /// packet-number space whose (attack_at+1)-th packet is rewritten: app (default) | initial | handshake
+    pub attack_space: String,
+    /// which endpoint plays the adversarial peer: c (default; the victim is the server) | s
+    pub attacker: String,
     /// record cleartext payloads (hex) in the trace
     pub payloads: bool,
     pub events: bool,
@@ -160,6 +164,8 @@ impl Default for Cfg {
             deadline_ms: 600_000,
             attack: String::new(),
             attack_at: 0,
+            attack_space: "app".into(),
+            attacker: "c".into(),
             payloads: true,
             events: true,
             inject_kind: String::new(),
@@ -266,6 +272,14 @@ impl Cfg {
                 "deadline_ms" => c.deadline_ms = n()?,
                 "attack" => c.attack = v.to_string(),
                 "attack_at" => c.attack_at = n()?,
+                "attack_space" => match v {
+                    "app" | "initial" | "handshake" => c.attack_space = v.to_string(),
+                    _ => return Err(format!("bad attack_space {v}")),
+                },
+                "attacker" => match v {
+                    "c" | "s" => c.attacker = v.to_string(),
+                    _ => return Err(format!("bad attacker {v}")),
+                },
                 "payloads" => c.payloads = n()? != 0,
                 "events" => c.events = n()? != 0,
                 "inject_kind" => c.inject_kind = v.to_string(),
